@@ -1253,6 +1253,29 @@ func (k Keeper) DrawAsset(ctx sdk.Context, borrowID uint64, borrowerAddr string,
 	if pair.IsEModeEnabled {
 		assetRatesStatsLtv = assetRatesStats.ELtv
 	}
+	// a cross-pool position is collateralised through its bridged transit asset: the loan-to-value ratio of that
+	// asset applies on top, as it did when the position was opened (BorrowAsset) and as liquidation assumes
+	if pair.IsInterPool && borrowPos.BridgedAssetAmount.Amount.IsPositive() {
+		assetInPool, found := k.GetPool(ctx, lendPos.PoolID)
+		if !found {
+			return types.ErrPoolNotFound
+		}
+		for _, data := range assetInPool.AssetData {
+			if data.AssetTransitType != 2 && data.AssetTransitType != 3 {
+				continue
+			}
+			transitAsset, found := k.Asset.GetAsset(ctx, data.AssetID)
+			if !found || transitAsset.Denom != borrowPos.BridgedAssetAmount.Denom {
+				continue
+			}
+			transitRatesStats, found := k.GetAssetRatesParams(ctx, transitAsset.Id)
+			if !found {
+				return types.ErrorAssetStatsNotFound
+			}
+			assetRatesStatsLtv = assetRatesStatsLtv.Mul(transitRatesStats.Ltv)
+			break
+		}
+	}
 	err = k.VerifyCollateralizationRatio(ctx, borrowPos.AmountIn.Amount, assetIn, borrowPos.AmountOut.Amount.Add(borrowPos.InterestAccumulated.TruncateInt()).Add(amount.Amount), assetOut, assetRatesStatsLtv)
 	if err != nil {
 		return err
